@@ -397,10 +397,10 @@ impl Brancher for BoxB {
             match d {
                 Some(p) => {
                     log.decisions += 1;
-                    if context.is_predicate_assigned(p) {
+                    if context.is_predicate_assigned(p) && log.violations.len() < 20 {
                         log.violations.push(BranchViolation { what: format!("decision {} is already assigned", p) });
                     }
-                    if !self.vars.contains(&p.get_domain()) {
+                    if !self.vars.contains(&p.get_domain()) && log.violations.len() < 20 {
                         log.violations.push(BranchViolation { what: format!("decision {} is not over a brancher variable", p) });
                     }
                     if let Some(vi) = self.valsel {
@@ -434,7 +434,7 @@ impl Brancher for BoxB {
                 None => {
                     log.nones += 1;
                     for &v in &self.vars {
-                        if !context.is_integer_fixed(v) {
+                        if !context.is_integer_fixed(v) && log.violations.len() < 20 {
                             log.violations.push(BranchViolation {
                                 what: format!(
                                     "no decision although {} is unfixed [{}..{}]",
